@@ -100,6 +100,8 @@ def gen_graph(rng, max_files):
     for i in range(n):
         d = rng.choice(DIRS)
         name = "main.bard" if i == 0 else f"f{i}.bard"
+        if i > 0 and rng.random() < 0.2 and posixpath.join("w", d, "main.bard") not in [x["path"] for x in files]:
+            name = "main.bard"        # an included file with the entry file's base name, in another directory
         kind = "passages" if i == 0 or rng.random() < 0.55 else "fragment"
         files.append({"path": posixpath.join("w", d, name), "kind": kind, "nl": rng.random() < 0.7,
                       "children": [], "extra": []})
@@ -739,6 +741,10 @@ def diagnostic_provenance(chk, root, g, sub_seed, rng, stats, kinds_per_position
                     new = base[:pos] + ["@if True:", "    @if True:"] + ["        " + l for l in ins] + ["    @endif", "@endif"] + base[pos:]
                     idx = pos + 2 + (D.CONSTRUCTS[kind][1] or 0)
                     pclass_k = "nested-if:" + pclass
+                elif kind == "passage-duplicate" and f is not g["files"][0] and any(l.strip() == ":: Start" for l in file_lines(g, g["files"][0])):
+                    # a second definition of the entry file's `:: Start`, standing in an included file
+                    base = D.host_text(host)
+                    new, idx, pclass_k = base[:pos] + [":: Start", "Again."] + base[pos:], pos, pclass
                 else:
                     new, idx, _ctx, _alt = D.place(host, pos, kind, f["path"])
                     pclass_k = pclass
